@@ -126,3 +126,85 @@ def _n_input_indices(S, ms):
 
 ALL += [arrayspec_rank, arrayspec_validate, mapspec_input_names, mapspec_output_names, get_output_dim,
         mapspec_input_indices, mapspec_output_key]
+
+
+# ---- MapSpec.input_keys: which element of every input a call with linear index l receives (C01) ----------------------
+from pyvc.types import TDict as _TDict  # noqa: E402
+
+from .ty import SK, TKey  # noqa: E402
+
+mapspec_external_indices = Contract(
+    f"{F}::MapSpec.external_indices", params={"self": MapSpecT}, returns=SS, trusted=True,
+    ensures=lambda S, a, r, post: ({"output-axes-shared-with-inputs": list(r) == [
+        ax for ax in a.self.outputs[0].axes if ax is not None and any(ax in x.axes for x in a.self.inputs)]}
+        if not S.symbolic else {}),
+    note="filter of the output axes by membership in a set built by a two-generator comprehension: outside the "
+         "engine's subset; checked on the bounded rung",
+)
+
+
+def _ext_idx(S, ms):
+    if not S.symbolic:
+        return list(ms.external_indices)
+    import z3
+    from pyvc.types import Val, unwrap
+    f = z3.Function("fn:MapSpec.external_indices", MapSpecT.sort(), SS.sort())
+    return unwrap(Val(SS, f(ms.t)))
+
+
+def _distinct(S, seq):
+    return S.forall(0, S.len(seq), lambda i: S.forall(0, S.len(seq), lambda j: S.implies(i != j, lambda: S.not_(
+        S.eq(seq[i], seq[j])))))
+
+
+def _digit(S, a, q):
+    return S.mod(S.div(a.linear_index, S.prod(a.shape, q + 1, S.len(a.shape))), a.shape[q])
+
+
+def _ik_requires(S, a):
+    E = _ext_idx(S, a.self)
+    ins = a.self.inputs
+    return {
+        "positive-dims": all_pos(S, a.shape),
+        "input names pairwise distinct": S.forall(0, S.len(ins), lambda i: S.forall(0, S.len(ins), lambda j: S.implies(
+            i != j, lambda: S.not_(S.eq(ins[i].name, ins[j].name))))),
+        "external indices pairwise distinct": _distinct(S, E),
+        # MapSpec.__post_init__: every named input axis is an output axis (hence an external index)
+        "named input axes are external indices": S.forall(0, S.len(ins), lambda i: S.forall(
+            0, S.len(ins[i].axes), lambda p: S.implies(S.not_(S.is_none(ins[i].axes[p])), lambda: S.exists(
+                0, S.len(E), lambda q: S.eq(E[q], S.some(ins[i].axes[p])))))),
+    }
+
+
+def _ik_ensures(S, a, r, post):
+    E = _ext_idx(S, a.self)
+    ins = a.self.inputs
+
+    def entry(i):
+        x = ins[i]
+        k = r[x.name]
+        return S.and_(S.has(r, x.name), lambda: S.and_(S.len(k) == S.len(x.axes), S.forall(
+            0, S.len(x.axes), lambda p: S.ite(
+                S.is_none(x.axes[p]),
+                lambda: S.and_(S.is_tag(k[p], "slice"), lambda: S.eq(S.untag(k[p], "slice"), S.slice_none())),
+                lambda: S.and_(S.is_tag(k[p], "int"), lambda: S.exists(0, S.len(E), lambda q: S.and_(
+                    S.eq(E[q], S.some(x.axes[p])), lambda: S.untag(k[p], "int") == _digit(S, a, q))))))))
+    return {
+        "one entry per input": S.forall_key(TStr, lambda nm: S.has(r, nm) == S.exists(
+            0, S.len(ins), lambda i: S.eq(ins[i].name, nm)), domain=() if S.symbolic else list(r) + [x.name for x in ins]),
+        "every input: ':' axes get the full slice, a named axis gets that axis' digit of the linear index":
+            S.forall(0, S.len(ins), entry),
+    }
+
+
+mapspec_input_keys = Contract(
+    f"{F}::MapSpec.input_keys", params={"self": MapSpecT, "shape": SI, "linear_index": TInt},
+    returns=_TDict(TStr, SK),
+    requires=_ik_requires,
+    raises=[("ValueError", lambda S, a: S.len(a.shape) != S.len(_ext_idx(S, a.self)))],
+    ensures=_ik_ensures,
+    note="digit q of the linear index = (l div prod(shape[q+1:])) mod shape[q] (row-major); duplicate input names or "
+         "duplicate output axes (later one wins in the dicts) are excluded by the precondition",
+)
+
+ALL += [mapspec_external_indices, mapspec_input_keys]
